@@ -28,8 +28,9 @@ CONSTANTS B,            \* units per comparison block
           MaxBlocks,    \* the source spans at most MaxBlocks blocks
           Protocols,    \* subset of {2, 3, 4}
           AllPatterns,  \* BOOLEAN: every same/different pattern of old instead of the named relations
-          AsCoded       \* BOOLEAN: TRUE mirrors today's pipelineRecvHashAck (no answer when the
-                        \* compared size is 0); FALSE = required design (it answers 0 at once)
+          AsCoded       \* BOOLEAN: FALSE = pipelineRecvHashAck answers matchStep 0 at once when the
+                        \* compared size is 0 (required; the code since /repo cb319ea);
+                        \* TRUE = the code before that fix (it waited for an ack that never comes)
 
 VARIABLES proto, src, old, oldEx,      \* the case (never change)
           kind,                        \* name of the relation (label only)
@@ -350,7 +351,7 @@ OthersUntouched == dir["g"] = Other /\ dir["f.0"] = Absent
 
 NoFailure == apc # "fail" /\ rpc # "fail"
 
-(* every run ends; the only way to sit still before the end is the known one (AsCoded)         *)
+(* every run ends; the pre-fix variant (AsCoded) sits still in exactly one relation           *)
 Stuck == ~Done /\ ~ENABLED Next
 StuckOnlyEmptySrc == Stuck => (AsCoded /\ src = <<>> /\ oldEx /\ old # <<>> /\ proto >= 3)
 NoStuck == ~Stuck
